@@ -1952,7 +1952,9 @@ func (_setElem1) exec(vm *vm) {
 	propName := vm.stack[vm.sp-2]
 	val := vm.stack[vm.sp-1]
 
-	obj.setOwn(propName, val, true)
+	// a computed key in an object literal defines an own data property (it must not run setters found on the
+	// prototype chain, in particular not the __proto__ setter)
+	createDataPropertyOrThrow(obj, propName, val)
 
 	vm.sp -= 2
 	vm.pc++
@@ -1971,7 +1973,7 @@ func (_setElem1Named) exec(vm *vm) {
 		Value:        funcName("", propName),
 		Configurable: FLAG_TRUE,
 	}, true)
-	base.set(propName, val, receiver, true)
+	createDataPropertyOrThrow(base, propName, val)
 
 	vm.sp -= 2
 	vm.pc++
